@@ -13,7 +13,7 @@ bak=$(mktemp -d /tmp/evbak.XXXXXX); cp evidence/*.json "$bak"/
 missed=0
 for s in "${seeds[@]}"; do
   c=${s%[a-z]}
-  if ! git -C /repo apply "seeded/$s/patch.diff" 2>/dev/null; then echo "$s $c patch does not apply"; missed=1; continue; fi
+  if ! git -C /repo apply "$PWD/seeded/$s/patch.diff" 2>/dev/null; then echo "$s $c patch does not apply"; missed=1; continue; fi
   out=$(timeout 1800 ./check "$c" 2>&1); rc=$?
   git -C /repo checkout -- .
   if [ $rc -eq 0 ]; then v=MISSED; missed=1
